@@ -1041,7 +1041,9 @@ def gen_C13(o, rng, tier, unchecked=False, eq="lawful"):
 
 
 def wide_gdm(o, name, eq, present=(180, 0, 1)):
-    """200 requests at once against a map of capacity 300 holding 180 / 0 / 1 of the requested keys."""
+    """200 requests at once against a map of capacity 300 holding 180 / 0 / 1 of the requested keys;
+    8, 9, 32, 33, 63, 64, 65 requests (the boundaries of 8-, 32- and 64-bit bookkeeping), all present, some
+    absent, and with the first key requested again at the end."""
     for np_ in present:
         o.case(m0=300, m1=0, eq=eq, tag="wide")
         for i in range(np_):
@@ -1050,6 +1052,22 @@ def wide_gdm(o, name, eq, present=(180, 0, 1)):
         o.op(f"m0 {name} 1 [{ks}]", test=True)
         o.op("m0 len")
         o.end()
+    for j in (8, 9, 32, 33, 63, 64, 65):
+        for np_ in (70, j // 2):
+            o.case(m0=300, m1=0, eq=eq, tag="wide")
+            for i in range(np_):
+                o.op(f"m0 insert {o.k(i)} {o.v()}")
+            ks = ",".join(f"q:{j - 1 - c}#0" for c in range(j))
+            o.op(f"m0 {name} 1 [{ks}]", test=True)
+            ks = ",".join(f"q:{c}#0" for c in range(j))
+            o.op(f"m0 {name} 2 [{ks}]", test=True)
+            if name == "gdm":
+                ks = ",".join(f"q:{c}#0" for c in list(range(j - 1)) + [0])
+                o.op(f"m0 {name} 1 [{ks}]", test=True)
+            for c in (0, j - 1, j // 2):
+                o.op(f"m0 get q:{c}#0")
+            o.op("m0 len")
+            o.end()
 
 
 def big_map_gdm(o, rng, name, eq):
